@@ -481,8 +481,45 @@ def _e2_cases(tier):
     return out
 
 
+def _inplace_cases(tier):
+    """a per-element parameter field owned by the caller is edited IN PLACE and assigned again as the same object
+    (read before, so that C and S are cached): every field-capable constant of every law x dimension mode"""
+    out = []
+    for law in ("Isotropic", "TransverselyIsotropic", "Orthotropic"):
+        for mode in DIMMODES:
+            for name in ENG[law]["hom_a"]:
+                out.append({"kind": "inplace", "law": law, "dim": mode, "param": name})
+    return out
+
+
 def cases(tier, seed):
-    return _law_cases(tier) + _pmat_cases(tier) + _e2_cases(tier)
+    return _law_cases(tier) + _pmat_cases(tier) + _e2_cases(tier) + _inplace_cases(tier)
+
+
+def _run_inplace(case):
+    law, mode, name = case["law"], case["dim"], case["param"]
+    params = dict(ENG[law]["hom_b"])
+    a1, a2 = np.array([1.0, 0.0, 0.0]), np.array([0.0, 1.0, 0.0])
+    mat = build_law(law, mode, params, a1, a2)
+    arr = _field(params[name], (3,), name, 1)
+    v = []
+    key = dict(law=law, dim=mode, param=name)
+    fps = []
+    for step in range(3):
+        if step > 0:
+            arr *= (0.9 if _is_poisson(name) else 1.2)  # in place: same object
+        setattr(mat, name, arr)  # the SAME array object every time
+        C, S = np.array(mat.C, dtype=float), np.array(mat.S, dtype=float)
+        fresh = build_law(law, mode, dict(params, **{name: arr.copy()}), a1, a2)
+        Cf, Sf = np.array(fresh.C, dtype=float), np.array(fresh.S, dtype=float)
+        fps.append(fp(C))
+        for nm, A, B in (("C", C, Cf), ("S", S, Sf)):
+            if A.shape != B.shape or np.abs(A - B).max() > 1e-12 * max(np.abs(B).max(), 1e-300):
+                v.append(viol("inplace_stale", f"{law} {mode}: after editing the field of {name} in place and assigning it again (step {step}), "
+                                               f"{nm} differs from a freshly constructed law", which=nm, **key))
+        if v:
+            break
+    return {"violations": v[:2], "fingerprint": fp(law, mode, name, fps), "nontrivial": True, "transitions": 3}
 
 
 def describe(tier, seed):
